@@ -96,6 +96,11 @@ def run(ctx):
                 e = make_sim(kind, seed); e2 = copy.deepcopy(e); e.run(); e2.run(); compare('deep-copied twin run afterwards', fingerprint(e2))
                 h = make_sim(kind, seed); h.init(); h2 = copy.deepcopy(h); h.run(); h2.run(); compare('twin deep-copied after init, original run first', fingerprint(h2)); compare('initialised sim run after being deep-copied', fingerprint(h))
                 h = make_sim(kind, seed); h.init(); h2 = copy.deepcopy(h); h2.run(); h.run(); compare('twin deep-copied after init, twin run first', fingerprint(h))
+                x = make_sim(kind, seed); y = make_sim(kind, seed + 1); x.init(); y.init()
+                while x.loop.index < len(x.loop.plan):
+                    if y.loop.index < len(y.loop.plan): y.loop.run_one_step()
+                    x.loop.run_one_step()
+                x.run(); compare('stepped in lock-step with a sim of the same kind and another seed', fingerprint(x))
                 # a perturbation of the process-wide generator at a loop-function boundary
                 class Poke(ss.Analyzer):
                     def step(self): np.random.random(3)
@@ -135,8 +140,7 @@ def run(ctx):
                     fp = json.loads(line[0][3:])
                     d = [k for k in ref if fp.get(k) != ref[k]]
                     if d:
-                        w = dict(config=kind, seed=seed, history='worker', first_difference=d[0])
-                        if users: w['finding_key'] = 'global-generator:' + '+'.join(users)
+                        w = dict(config=kind, seed=seed, history='worker', first_difference=d[0])      # both runs start from np.random as Sim.init seeded it: the global generator explains no difference here
                         viol(f'{kind} (seed {seed}): a fresh worker process with PYTHONHASHSEED={env["PYTHONHASHSEED"]} gives a different simulation (first difference: {d[0]})', w)
     bad = ctx.coq_mismatches('c01seeds', IMPORTS, 'Z * Z * Z', sterms, 'Definition ok (c : Z * Z * Z) : bool := let \'(o, b, s) := c in Z.eqb (seed_gen o b) s.', shard=500)
     for j in bad[:3]: ctx.broke('correspondence', 'a distribution\'s seed differs from seed_gen(sha(trace) mod 1e9, base seed)', repr(smeta[j]))
